@@ -501,15 +501,203 @@ impl Property for PublicPath {
     }
 }
 
+// ------------------------------------------------------------ help layout
+
+/// Every place where the help layout wraps author text: the width bound seen by a user.
+#[derive(Serialize, Deserialize, Hash, Clone, Debug)]
+pub struct LayoutCase {
+    pub width: usize,
+    /// the width is requested through `max_term_width` alone (no `term_width`)
+    pub via_max: bool,
+    pub about: Option<String>,
+    pub long_about: Option<String>,
+    pub before: Option<String>,
+    pub after: Option<String>,
+    /// (name, about)
+    pub subs: Vec<(String, Option<String>)>,
+    /// (long, takes a value, help, long_help)
+    pub opts: Vec<(String, bool, Option<String>, Option<String>)>,
+    /// (id, help)
+    pub positionals: Vec<(String, Option<String>)>,
+    pub next_line_help: bool,
+}
+
+pub struct HelpLayout;
+
+const L_WORDS: &[&str] = &["a", "of", "the", "quick", "brown", "fox", "jumps", "over", "lazy", "dog", "pack", "my", "box", "with", "five", "dozen", "liquor", "jugs", "\u{e9}t\u{e9}", "\u{5b57}\u{5b57}"];
+const L_NAMES: &[&str] = &["ls", "add", "remove", "checkout", "synchronise", "reconfigure-all", "x", "status"];
+const L_LONGS: &[&str] = &["all", "verbose", "output", "configuration", "no-default-features", "q", "jobs"];
+
+fn sentence(t: &mut Tape<'_>, max_words: usize) -> String {
+    let n = t.range(1, max_words);
+    let mut s = String::new();
+    for i in 0..n {
+        if i > 0 {
+            s.push(if t.chance(1, 12) { '\n' } else { ' ' });
+        }
+        s.push_str(*t.pick(L_WORDS));
+    }
+    s
+}
+
+impl Property for HelpLayout {
+    type Case = LayoutCase;
+    fn name(&self) -> &'static str {
+        "help-layout-width"
+    }
+    fn rule(&self) -> String {
+        "commands with 0-4 subcommands (names of 1-15 columns), 0-4 options (long names of 1-19 columns, with or without a value), 0-2 \
+         positionals, about / long_about / before_help / after_help, per-item help and long_help of 1-30 short words (<= 6 columns, some \
+         wide characters, some explicit line breaks) x next_line_help x a width of 40-120 requested through term_width or through \
+         max_term_width alone, rendered as short and as long help. Oracle: outside the usage block no line of the rendered help whose text part (after the item column) holds two or more words \
+         is wider than the requested width (every word fits the text column, so such a line can only come from wrapping to the wrong \
+         width or from the wrong indent). Non-trivial: some text had to be wrapped (the help has more lines than the texts have line breaks)."
+            .into()
+    }
+    fn budget(&self, tier: Tier) -> Budget {
+        Budget { cases: tier.pick(100_000, 2_000_000), tape_len: 400 }
+    }
+    fn decode(&self, t: &mut Tape<'_>) -> LayoutCase {
+        let width = t.range(40, 120);
+        let via_max = t.chance(1, 3);
+        let opt = |t: &mut Tape<'_>, n: usize| if t.chance(2, 3) { Some(sentence(t, n)) } else { None };
+        let about = opt(t, 20);
+        let long_about = if t.chance(1, 3) { Some(sentence(t, 30)) } else { None };
+        let before = if t.chance(1, 4) { Some(sentence(t, 20)) } else { None };
+        let after = if t.chance(1, 4) { Some(sentence(t, 20)) } else { None };
+        let mut names = L_NAMES.to_vec();
+        let mut subs = Vec::new();
+        for _ in 0..t.range(0, 4) {
+            let i = t.choose(names.len());
+            subs.push((names.remove(i).to_owned(), opt(t, 30)));
+        }
+        let mut longs = L_LONGS.to_vec();
+        let mut opts = Vec::new();
+        for _ in 0..t.range(0, 4) {
+            let i = t.choose(longs.len());
+            let long_help = if t.chance(1, 3) { Some(sentence(t, 30)) } else { None };
+            opts.push((longs.remove(i).to_owned(), t.bool(), opt(t, 30), long_help));
+        }
+        let mut positionals = Vec::new();
+        for i in 0..t.range(0, 2) {
+            positionals.push((format!("pos{i}"), opt(t, 30)));
+        }
+        LayoutCase { width, via_max, about, long_about, before, after, subs, opts, positionals, next_line_help: t.chance(1, 5) }
+    }
+    fn run(&self, case: &LayoutCase, ctx: &mut Ctx) -> Verdict {
+        use clap::{Arg, ArgAction, Command};
+        let mut cmd = Command::new("prog").next_line_help(case.next_line_help);
+        cmd = if case.via_max { cmd.max_term_width(case.width) } else { cmd.term_width(case.width) };
+        if let Some(t) = &case.about {
+            cmd = cmd.about(t.clone());
+        }
+        if let Some(t) = &case.long_about {
+            cmd = cmd.long_about(t.clone());
+        }
+        if let Some(t) = &case.before {
+            cmd = cmd.before_help(t.clone());
+        }
+        if let Some(t) = &case.after {
+            cmd = cmd.after_help(t.clone());
+        }
+        for (n, about) in &case.subs {
+            let mut sc = Command::new(n.clone());
+            if let Some(t) = about {
+                sc = sc.about(t.clone());
+            }
+            cmd = cmd.subcommand(sc);
+        }
+        for (l, takes, help, long_help) in &case.opts {
+            let mut a = Arg::new(l.clone()).long(l.clone()).action(if *takes { ArgAction::Set } else { ArgAction::SetTrue });
+            if let Some(t) = help {
+                a = a.help(t.clone());
+            }
+            if let Some(t) = long_help {
+                a = a.long_help(t.clone());
+            }
+            cmd = cmd.arg(a);
+        }
+        for (id, help) in &case.positionals {
+            let mut a = Arg::new(id.clone());
+            if let Some(t) = help {
+                a = a.help(t.clone());
+            }
+            cmd = cmd.arg(a);
+        }
+        let breaks: usize = [&case.about, &case.long_about, &case.before, &case.after]
+            .into_iter()
+            .flatten()
+            .chain(case.subs.iter().filter_map(|s| s.1.as_ref()))
+            .chain(case.opts.iter().flat_map(|o| [o.2.as_ref(), o.3.as_ref()]).flatten())
+            .chain(case.positionals.iter().filter_map(|p| p.1.as_ref()))
+            .map(|t| t.matches('\n').count())
+            .sum();
+        let mut wrapped = false;
+        for long in [false, true] {
+            let mut c = cmd.clone();
+            let help = match catch(move || if long { c.render_long_help() } else { c.render_help() }.to_string()) {
+                Ok(h) => h,
+                Err(p) => return Verdict::Fail(Failure::from_panic(&p)),
+            };
+            let mut in_usage = false;
+            let mut lines = 0;
+            for line in help.split('\n') {
+                if line.starts_with("Usage:") {
+                    in_usage = true;
+                }
+                if line.trim().is_empty() {
+                    in_usage = false;
+                }
+                lines += 1;
+                if in_usage {
+                    continue;
+                }
+                let rt = line.trim_end_matches(' ');
+                let w = ref_width(rt);
+                // the item column (names chosen by the author) is not wrapped text: a line is judged by its text part, which
+                // starts after the first run of two spaces behind the item, and is excused when that part is a single word
+                let body = rt.trim_start_matches(' ');
+                let is_item = body.starts_with('-')
+                    || body.starts_with('<')
+                    || body.starts_with('[')
+                    || body.starts_with("help")
+                    || case.subs.iter().any(|s| body == s.0 || body.starts_with(&format!("{}  ", s.0)));
+                let text = if is_item { body.splitn(2, "  ").nth(1).unwrap_or("") } else { body };
+                ensure!(
+                    w <= case.width || !text.trim().contains(' '),
+                    format!("wrap:help-layout:line-wider-than-the-width:{}", if long { "long" } else { "short" }),
+                    "width {} requested through {}: line {:?} of the {} help is {} columns wide\n{}",
+                    case.width,
+                    if case.via_max { "max_term_width" } else { "term_width" },
+                    line,
+                    if long { "long" } else { "short" },
+                    w,
+                    help
+                );
+            }
+            // a generous estimate of the lines there would be without wrapping: items + headings + blank lines + explicit breaks
+            if lines > 12 + 2 * (case.subs.len() + case.opts.len() + case.positionals.len()) + breaks + 8 {
+                wrapped = true;
+            }
+        }
+        if wrapped {
+            ctx.label("help-text-wrapped");
+            ctx.nontrivial();
+        }
+        Verdict::Pass
+    }
+}
+
 pub fn check() -> Check {
     Check {
         id: "C20",
-        parts: vec![Box::new(Gen(Wrap)), Box::new(Gen(PublicPath))],
+        parts: vec![Box::new(Gen(Wrap)), Box::new(Gen(PublicPath)), Box::new(Gen(HelpLayout))],
         assumptions: vec![
             "alphabet as in the statement: other Unicode white space, tabs and non-SGR control sequences are not generated".into(),
             "features wrap_help + unicode; display widths per unicode-width 0.2 (the same table the library uses)".into(),
             "styled text: the indent re-emitted after a break is only required to be a run of spaces (the library tracks the indent \
-             per styled block, which the statement does not pin down); no width claim for styled text"
+             per styled block, which the statement does not pin down); a width claim for styled text only where it holds no escape \
+             sequence at all (plain content) and, in [help-layout-width], for whole lines of rendered help"
                 .into(),
             "the hook functions are thin re-exports of textwrap::wrap, textwrap::core::display_width and StyledStr::wrap".into(),
         ],
